@@ -258,6 +258,8 @@ pub enum Op {
     WrongCast(u8),
     /// a call through a wrongly typed ActorRef built from the cell
     WrongCall(u8),
+    /// a send through a DerivedActorRef obtained from a wrongly typed ActorRef built from the cell
+    WrongDerived(u8),
     Call { to: u8, id: u32, timeout_ms: Option<u16> },
     MultiCall { to: Vec<u8>, id: u32, timeout_ms: Option<u16> },
     CallFwd { to: u8, fwd: u8, id: u32, timeout_ms: Option<u16> },
@@ -333,6 +335,20 @@ impl TryFrom<Msg> for DMsg {
 /// a second message type, for wrong-typed sends
 pub struct OtherMsg(pub u32);
 impl ractor::Message for OtherMsg {}
+/// a message type convertible into `OtherMsg`, for a DerivedActorRef over the wrong type
+pub struct OtherD(pub u32);
+impl ractor::Message for OtherD {}
+impl From<OtherD> for OtherMsg {
+    fn from(d: OtherD) -> OtherMsg {
+        OtherMsg(d.0)
+    }
+}
+impl TryFrom<OtherMsg> for OtherD {
+    type Error = ();
+    fn try_from(m: OtherMsg) -> Result<OtherD, ()> {
+        Ok(OtherD(m.0))
+    }
+}
 pub struct OtherCall(pub RpcReplyPort<u32>);
 impl ractor::Message for OtherCall {}
 
@@ -1005,6 +1021,12 @@ pub async fn exec_op(w: &Arc<World>, c: usize, i: usize, op: &Op) -> Res {
         Op::WrongCast(to) => {
             let cell = cell!(to);
             send_res(&cell.get_cell().send_message(OtherMsg(7)))
+        }
+        Op::WrongDerived(to) => {
+            let cell = cell!(to);
+            let wrong: ActorRef<OtherMsg> = cell.get_cell().into();
+            let d: ractor::DerivedActorRef<OtherD> = wrong.get_derived();
+            send_res(&d.send_message(OtherD(9)))
         }
         Op::WrongCall(to) => {
             let cell = cell!(to);
